@@ -38,7 +38,7 @@ TABLE = [
      {'config': cfg(procs=1, maxtasks=1, allow=['close-unsupervised']),
       'ops': [['apply', ['id'], 1, {}, True], ['apply', ['id'], 2, {}, True],
               ['close']]}),
-    ('D7-death-reaped-before-ack', 'C04', 'sim', 'open', None,
+    ('D7-death-reaped-before-ack', 'C04', 'sim', 'fixed', '1b6a392',
      'C04/unresolved/apply/ack-after-reap',
      'a worker death reaped before the victim\'s pending ACK is consumed is '
      'never attributed to the job (orphan scan runs only inside "if cleaned:", '
